@@ -112,6 +112,11 @@ func GetDocumentFactory(t MediaType) (func() Document, error) {
 }
 
 func UnmarshalDocument(d *json.RawMessage, t MediaType) (Document, error) {
+	if d == nil {
+		// A null or absent value, like in a container or in a collection item
+		return nil, errors.New("document value is required")
+	}
+
 	factory, err := GetDocumentFactory(t)
 	if err != nil {
 		return nil, err
